@@ -97,6 +97,17 @@ func (e *env) buildOverlay() error {
 				return err
 			}
 		}
+		shared, _ := filepath.Glob(filepath.Join(e.verif, "harness/shared/*.go.tmpl"))
+		sort.Strings(shared)
+		for _, f := range shared {
+			data, err := os.ReadFile(f)
+			if err != nil {
+				return err
+			}
+			if err := add(strings.TrimSuffix(filepath.Base(f), ".tmpl"), bytes.ReplaceAll(data, []byte("PKGNAME"), []byte(name))); err != nil {
+				return err
+			}
+		}
 		if err := add("zz_verif_rt.go", bytes.ReplaceAll(rt, []byte("PKGNAME"), []byte(name))); err != nil {
 			return err
 		}
